@@ -183,6 +183,8 @@ def _pred(p):
         return lambda r: r.order() == n
     if kind == "nprod":
         return lambda r: len(r.prod) == n
+    if kind == "named":
+        return lambda r: (r.name or "") == s
     raise core.MachineryFailure("unknown predicate %r" % (p,))
 
 
@@ -200,7 +202,7 @@ class World(object):
     # -- steps
     def make(self, h):
         rxns = [self.Reaction(dict(r["reac"]), dict(r["prod"]), inact_reac=dict(r.get("ireac") or {}),
-                              inact_prod=dict(r.get("iprod") or {})) for r in h["rx"]]
+                              inact_prod=dict(r.get("iprod") or {}), name=r.get("name") or None) for r in h["rx"]]
         comp = h.get("comp") or {}
         given, mode = h["given"], h["mode"]
 
@@ -296,7 +298,10 @@ class World(object):
         i, j = h["i"] - 1, h["j"] - 1
         a, b = self.ws[i], self.ws[j]
         a_rx, b_rx = list(a.rxns), list(b.rxns)
-        other = list(b.rxns) if h["how"].endswith("-list") else b   # a plain list of reactions
+        form = h["how"].partition("-")[2]   # "" = a system; else the iterable the plain reactions come in
+        other = {"": lambda: b, "list": lambda: list(b.rxns), "tuple": lambda: tuple(b.rxns),
+                 "gen": lambda: (r for r in b_rx), "iter": lambda: iter(b_rx),
+                 "map": lambda: map(lambda r: r, b_rx)}[form]()
         if h["how"].startswith("add"):
             new = a + other
             self.ws.append(new)
@@ -526,10 +531,10 @@ def _nontrivial(hist):
     return any(len(h.get("rx", [])) >= 2 for h in hist) or any(h["op"].startswith("Do") for h in hist)
 
 
-def _slice(ctx, cfg, n_pick, actions, via_tlc=False, min_cases=50):
+def _slice(ctx, cfg, n_pick, actions, via_tlc=False, min_cases=50, always=None):
     res = ctx.tlc("RSysGraph_MC", "RSysGraph_MC_%s.cfg" % cfg, require_actions=actions, require_cases=min_cases,
                   timeout=1500, workers=8)
-    sel = ctx.pick(res.cases, n_pick)
+    sel = ctx.pick(res.cases, n_pick, always=always) if always else ctx.pick(res.cases, n_pick)
     hists = [c["in"]["hist"] for c in sel]
     outs = ctx.pmap(run_history, hists)
     ctx.cases_replayed += len(sel)
@@ -587,6 +592,8 @@ def _rand_rxn(rng, pool):
             r["ireac"], r["iprod"] = {}, {}
             r[side][k] = rng.randint(1, 2)
             net[k] = net.get(k, 0) + (r[side][k] if side == "iprod" else -r[side][k])
+        if rng.random() < 0.2:
+            r["name"] = rng.choice(["n1", "n2", "n3", "n4", "n5", "n6"])
         if reac and prod and any(net.values()):
             return r
 
@@ -601,7 +608,7 @@ def _rand_make(rng, with_comp=False):
             lo = rng.randrange(len(pool))
             sub = pool[lo:lo + rng.randint(1, 4)] or pool
             r = _rand_rxn(rng, sub)
-            if r not in rx:
+            if r not in rx and (not r.get("name") or all(r["name"] != o.get("name") for o in rx)):
                 rx.append(r)
     keys = sorted(set(k for r in rx for part in ("reac", "prod", "ireac", "iprod") for k in r.get(part, {})))
     mode = rng.choice(["list", "odict", "tuple", "dict"]) if with_comp else \
@@ -684,13 +691,15 @@ def gen_history(arg):
             p = rng.choice([{"kind": "has", "s": rng.choice(SPECIES12), "n": 0},
                             {"kind": "consumes", "s": rng.choice(SPECIES12), "n": 0},
                             {"kind": "order", "s": "", "n": rng.randint(1, 3)},
-                            {"kind": "nprod", "s": "", "n": rng.randint(1, 2)}])
+                            {"kind": "nprod", "s": "", "n": rng.randint(1, 2)},
+                            {"kind": "named", "s": rng.choice(["n1", "n2", "n3", ""]), "n": 0}])
             h = {"op": "DoSubset", "i": i, "p": p} if rng.random() < 0.5 else {"op": "Query", "i": i, "kind": "subset", "arg": p}
         elif x < 0.45:
-            how = rng.choice(["add", "iadd", "add-list", "iadd-list"])
+            how = rng.choice(["add", "iadd", "add", "iadd"] + [a + "-" + f for a in ("add", "iadd")
+                                                               for f in ("list", "tuple", "gen", "iter", "map")])
             if (how.startswith("iadd") and i == j) or sys_.nr + w.ws[j - 1].nr > 10:
                 continue
-            if how.endswith("-list") and not set().union(*[r.keys() for r in w.ws[j - 1].rxns] or [set()]) <= set(sys_.substances):
+            if "-" in how and not set().union(*[r.keys() for r in w.ws[j - 1].rxns] or [set()]) <= set(sys_.substances):
                 continue
             h = {"op": "DoAdd", "i": i, "j": j, "how": how}
         elif x < 0.50:
@@ -787,6 +796,10 @@ def run(ctx):
     t0 = _t(ctx, "subset+pair+conv", t0)
     _slice(ctx, "bounds_" + sfx, 1000 if q else None, [], min_cases=1000)
     t0 = _t(ctx, "bounds", t0)
+    # named twins: two systems holding the same reaction under different names are added, then subset by name
+    # (histories "add then subset" - class suffix :AS - are always replayed)
+    _slice(ctx, "twin", 500 if q else None, [], via_tlc=True, min_cases=3000,
+           always=lambda c: c["cls"].endswith(":AS"))
     _slice(ctx, "hist_" + sfx, 1200 if q else 12000, ["PickRx", "GenMake", "GenSplit", "GenSubset", "GenAdd", "GenQuery", "GenQueryCat"], via_tlc=True)
     if not q:
         _slice(ctx, "hist2_t", 12000, [], via_tlc=True)
